@@ -266,11 +266,41 @@ def handover_case(rng):
     return wf, rules, ops, {'T': T, 'reader': via, 'step_out': True, 'handover': True}
 
 
+def deep_output_case(rng):
+    """a value that exists only in the outputs of a task two or more levels below the scope that declares its name: a
+    script in the outputs of a step inside a branch (inside a branch), or a declared output handed over by the client
+    together with an error that the act's own catch (no steps) takes.  A later step reads the name"""
+    T = rng.randint(100, 999)
+    via = rng.choice(['step-output-script', 'step-output-script', 'caught-error-output'])
+    show = {'id': 'sshow', 'acts': [{'id': 'sh', 'uses': IRQ, 'key': 'show', 'inputs': {'shown': '{{ total }}'}}]}
+    if via == 'step-output-script':
+        a_ = rng.randint(1, 50)
+        calc = {'id': 'calc', 'inputs': {'a': a_, 'b': T - a_}, 'outputs': {'total': '{{ a + b }}'}}
+        if rng.random() < 0.5:
+            calc['acts'] = [{'id': 'cw', 'uses': IRQ, 'key': 'cw'}]
+        inner = [calc]
+        for d in range(rng.randint(1, 2)):
+            inner = [{'id': f'f{d}', 'branches': [{'id': f'fb{d}', 'if': 'true', 'steps': inner}] + ([{'id': f'fo{d}', 'if': 'true', 'steps': [{'id': f'fs{d}', 'acts': [{'id': f'fa{d}', 'uses': IRQ, 'key': f'fa{d}'}]}]}] if rng.random() < 0.4 else [])}]
+        steps = inner + [show]
+        rules = [{'match': {'uses': IRQ}, 'action': 'next', 'times': 20}]
+    else:
+        code = rng.choice(['refused', 'e1'])
+        ask = {'id': 'ask', 'uses': IRQ, 'key': 'ask', 'outputs': {'total': None}, 'catches': [{'on': code} if rng.random() < 0.6 else {'steps': []}]}
+        s1 = {'id': 'step1', 'acts': [ask]}
+        steps = [s1] if rng.random() < 0.5 else [{'id': 'f0', 'branches': [{'id': 'fb0', 'if': 'true', 'steps': [s1]}]}]
+        steps = steps + [show]
+        rules = [{'match': {'key': 'ask'}, 'action': 'error', 'options': {'ecode': code, 'message': 'no', 'total': T}, 'times': 1}, {'match': {'uses': IRQ}, 'action': 'next', 'times': 20}]
+    wf = {'id': 'm1', 'inputs': {'total': 0}, 'outputs': {'total': None}, 'steps': steps}
+    ops = [{'op': 'start', 'mid': 'm1', 'vars': {'pid': 'p1'}}, {'op': 'run'}, {'op': 'snapshot', 'level': 'live'}]
+    return wf, rules, ops, {'T': T, 'reader': via, 'step_out': True, 'deep': True}
+
+
 class DataFamily:
     name = 'data'
 
     def gen_fork(self, rng, idx, opts):
-        wf, rules, ops, m = fork_case(rng) if rng.random() < 0.7 else handover_case(rng)
+        r_ = rng.random()
+        wf, rules, ops, m = fork_case(rng) if r_ < 0.55 else handover_case(rng) if r_ < 0.75 else deep_output_case(rng)
         rt = rng.choice([{'flavor': 'current'}, {'flavor': 'current', 'chaos': {'max_yields': 3, 'seed': rng.randrange(1, 1 << 40)}}, {'flavor': 'multi', 'workers': 2, 'chaos': {'max_yields': 2, 'seed': rng.randrange(1, 1 << 40)}}])
         sc = {'id': '', 'family': 'data', 'sched': rt['flavor'] + '-fork', 'runtime': rt, 'engine': {'store': opts.get('store', 'mem'), 'keep_processes': True}, 'models': [json.dumps(wf)],
               'responder': {'mode': 'quiescent', 'rules': rules}, 'ops': ops}
@@ -289,6 +319,18 @@ class DataFamily:
             if ms != [0, m['T']]:
                 out.append(V('C07', 'read-your-writes', f"handed-on-output:{m['reader']}:{'stale' if len(ms) == 2 and ms[1] == 0 else 'other'}",
                              f"step2 ran twice (the client sent the flow back after x={m['T']} had been written): its two runs received x = {ms} through {m['reader']}, expected [0, {m['T']}]", scenario=sid))
+            return out
+        if m.get('deep'):
+            obs[f"c07.deep-outputs:{m['reader']}"] += 1
+            cb = [e for e in h.cbs if e['what'] == 'complete']
+            if not cb:
+                out.append(V('C07', 'program-did-not-complete', 'deep-output', f"program did not complete: {[(e['what'], e['state']) for e in h.cbs if e['what'] != 'start']}", scenario=sid))
+                return out
+            ms = [(e.get('inputs') or {}).get('shown') for e in h.delivers if e['key'] == 'show' and e['state'] == 'created']
+            if ms != [m['T']]:
+                out.append(V('C07', 'read-your-writes', f"message-input:{m['reader']}:{'stale' if ms == [0] else 'other'}", f"total = {m['T']} was written through {m['reader']} below the declaring workflow; the act of the next step received {ms}", scenario=sid))
+            if (cb[0].get('outputs') or {}).get('total') != m['T']:
+                out.append(V('C07', 'terminal-output-value', f"deep-output:{m['reader']}", f"terminal output total = {(cb[0].get('outputs') or {}).get('total')!r}, last value written was {m['T']}", scenario=sid))
             return out
         obs[f"c07.fork-reads:{m['reader']}"] += 1
         cb = [e for e in h.cbs if e['what'] == 'complete']
